@@ -375,6 +375,8 @@ impl Check for C05 {
         )?;
         let tp: Vec<Case> = super::evalorder::THIS_PROGRAMS.iter().enumerate().map(|(i, p)| Case::new(p.to_string(), 8, format!("mutation through `this` reaches the receiver of that call only, program {}", i))).collect();
         ctx.judge(tp, |c, r, o| self.oracle(c, r, o))?;
+        let sp: Vec<Case> = super::evalorder::SELF_TARGET_PROGRAMS.iter().map(|p| Case::new(p.to_string(), 8, "targets, indices or bounds that reach the container being assigned".to_string())).collect();
+        ctx.judge(sp, |c, r, o| self.oracle(c, r, o))?;
         let bc = build_cases();
         let n_build = bc.len();
         ctx.judge(bc, |c, r, o| self.oracle(c, r, o))?;
